@@ -11,6 +11,15 @@
 //  (b) the same deck without ACTNUM (all cells active): a cell active in both runs must hold the
 //      bit-identical value ("never depends on which other cells are inactive").
 // Inputs the library refuses (exceptions) are counted, never reported.
+// The complete EclipseState is used for odd case numbers, its first construction steps for even ones.
+//
+// Besides the active-cell arrays the all-cells accessors (get_global_*, porv(true)) are compared in active cells.
+// A few rarely generated, quarantined operations probe rules the unchanged tree is known to break; each has a key of its own:
+//   offset-unit-arithmetic:<ADD|MULTIPLY>:TEMPI         scalar arithmetic on an array whose unit has an offset
+//   region-operation-on-integer-array-ignored:EQUALREG  EQUALREG on an integer array does nothing
+//   top-plane-default-inactive-top-cell                 lower planes do not take the top plane value when the top cell is inactive
+//   global-view-*                                       the all-cells copy of PERM*/MULTZ* misses top plane defaults, COPYREG, ...
+// Arguments: tol=1e-12  big=<percent of cases with extents up to 6>  dump_refused=1 (decks of unexpected refusals to stderr)
 #include <opm/input/eclipse/Parser/Parser.hpp>
 #include <opm/input/eclipse/Deck/Deck.hpp>
 #include <opm/input/eclipse/EclipseState/EclipseState.hpp>
@@ -602,7 +611,7 @@ static const char* OPER_NONLIN[] = {"POLY", "SLOG", "LOG10", "LOGE", "INV", "MUL
 // One random operation for section `sec` given the state reached so far; the caller checks it against the reference.
 static bool propose(Gen& g, char sec, const Ref& st, Op& op, bool& boxOpen) {
     Rng& rng = g.rng; const Case& cs = g.cs;
-    auto dbl = g.arrays(sec, 0), ints = g.arrays(sec, 1), any = g.arrays(sec, 2);
+    auto dbl = g.arrays(sec, 0), any = g.arrays(sec, 2);
     auto existing = [&](const std::vector<const KwInfo*>& v, bool needFull) {
         std::vector<const KwInfo*> r;
         for (auto* k : v) { auto i = st.A.find(k->name); if (i != st.A.end() && i->second.exists && (!needFull || st.fullyDefined(i->second))) r.push_back(k); }
@@ -1065,7 +1074,11 @@ int main(int argc, char** argv) {
         static const std::string TOPKEY = "top-plane-default-inactive-top-cell";
         bool topHazard = false;
         for (auto& pr : ref->topPairs) if (cs.eff[pr.first] && !cs.eff[pr.second]) topHazard = true;
-        auto keyOf = [&](const std::string& k) { return topHazard ? TOPKEY : k; };
+        auto keyOf = [&](const std::string& k) {
+            // keys of other specific, separately reported defect classes are kept
+            if (k.rfind("offset-unit-arithmetic", 0) == 0 || k.rfind("region-operation-on-integer-array-ignored", 0) == 0 || k.rfind("global-view-", 0) == 0) return k;
+            return topHazard ? TOPKEY : k;
+        };
         auto shortMsg = [](std::string m) {
             size_t a = m.find("In <memory string>");
             if (a != std::string::npos) { size_t b = m.find('\n', a); m.erase(a, b == std::string::npos ? std::string::npos : b - a + 1); }
